@@ -1,7 +1,7 @@
 (* Unary operators (C09): + - ~ and ++ -- on an integral operand.
    Code (setValueType with vt2 == nullptr, lib/symboldatabase.cpp): the parent of a single operand that is
-   an arithmetical, bit or inc/dec operator gets *vt1, and "below INT => signed int" applies to all of
-   them.  ISO C: + - ~ have the promoted type (6.5.3.3), ++ and -- the type of the operand (6.5.2.4, 6.5.3.1). *)
+   an arithmetical, bit or inc/dec operator gets *vt1; "below INT => signed int" applies to the
+   arithmetical and bit operators (to inc/dec as well before /repo 4cd9f32).  ISO C: + - ~ have the promoted type (6.5.3.3), ++ and -- the type of the operand (6.5.2.4, 6.5.3.1). *)
 From CV Require Import Base.Bytes Lit.Platform Lit.Gen_Platforms TypeConv.Gen_TypeRank TypeConv.Defs TypeConv.Spec TypeConv.Proofs
   TypeConv.Explain TypeConv.Parametric.
 Require Import Lia ZifyBool.
@@ -9,8 +9,11 @@ Local Open Scope N_scope.
 
 Inductive uop := UArith | UIncDec.
 
-Definition result_type1 (t : vt) : vt :=
-  if type_rank (vt_type t) <? rank_INT then int_signed else t.
+Definition result_type1 (op : uop) (t : vt) : vt :=
+  match op with
+  | UIncDec => t                         (* since /repo 4cd9f32: no promotion for eIncDecOp *)
+  | UArith => if type_rank (vt_type t) <? rank_INT then int_signed else t
+  end.
 
 Definition c_result1 (w : widths) (op : uop) (a : ctype) : ctype :=
   match op with UArith => promote w a | UIncDec => a end.
@@ -18,37 +21,32 @@ Definition c_result1 (w : widths) (op : uop) (a : ctype) : ctype :=
 (* + - ~ : the promoted type, on every ordered assignment of widths unless the operand is an unsigned type
    below int that int cannot represent (class 2) *)
 Theorem unary_arith_spec w a : ordered w ->
-  ctype_of (result_type1 (vt_of a)) = Some (promote w a) \/ cause_promotion w a = true.
+  ctype_of (result_type1 UArith (vt_of a)) = Some (promote w a) \/ cause_promotion w a = true.
 Proof.
   intros H. rewrite <- (promote_canon w a H), <- (cause_promotion_canon w a H).
   pose proof (canon_in_list w) as Hin.
   assert (Hall : forallb (fun cw => forallb (fun t =>
-            match ctype_of (result_type1 (vt_of t)) with
+            match ctype_of (result_type1 UArith (vt_of t)) with
             | Some r => ctype_eqb r (promote cw t) || cause_promotion cw t
             | None => false end) all_ctypes) canon_list = true) by (vm_compute; reflexivity).
   rewrite forallb_forall in Hall. specialize (Hall _ Hin).
   rewrite forallb_forall in Hall. specialize (Hall a (all_ctypes_complete a)).
-  destruct (ctype_of (result_type1 (vt_of a))) as [r|]; [|discriminate].
+  destruct (ctype_of (result_type1 UArith (vt_of a))) as [r|]; [|discriminate].
   apply orb_true_iff in Hall as [E|E]; [left | right; exact E].
   f_equal. destruct r, (promote (canon w) a); try discriminate; reflexivity.
 Qed.
 
-(* ++ -- : the operand's type when it has at least the rank of int ... *)
-Theorem incdec_spec a : 3 <= crank a -> ctype_of (result_type1 (vt_of a)) = Some a.
-Proof. destruct a; cbn; intros H; try lia; reflexivity. Qed.
+(* ++ -- : the operand's type, for every operand type (true since /repo 4cd9f32; before, `us++` was typed signed int) *)
+Theorem incdec_spec w a : ctype_of (result_type1 UIncDec (vt_of a)) = Some (c_result1 w UIncDec a).
+Proof. destruct a; reflexivity. Qed.
 
-(* ... and refuted below int: `us++` is typed signed int, its type is unsigned short (every platform) *)
-Theorem incdec_small_refuted : forall w,
-  ctype_of (result_type1 (vt_of CUShort)) = Some CInt /\ c_result1 w UIncDec CUShort = CUShort.
-Proof. intros. split; reflexivity. Qed.
-
-(* class of a unary disagreement: 0 agree | 2 promotion | 6 inc/dec of a type below int | 9 unexplained *)
+(* class of a unary disagreement: 0 agree | 2 promotion | 9 unexplained *)
 Definition explain1 (w : widths) (op : uop) (a : ctype) : N :=
-  match ctype_of (result_type1 (vt_of a)) with
+  match ctype_of (result_type1 op (vt_of a)) with
   | Some r => if ctype_eqb r (c_result1 w op a) then 0
               else match op with
                    | UArith => if cause_promotion w a then 2 else 9
-                   | UIncDec => if crank a <? 3 then 6 else 9
+                   | UIncDec => 9
                    end
   | None => 9
   end.
@@ -58,7 +56,7 @@ Proof.
   intros H. destruct op.
   - unfold explain1, c_result1. destruct (unary_arith_spec w a H) as [E|E].
     + rewrite E. assert (ctype_eqb (promote w a) (promote w a) = true) as -> by (destruct (promote w a); reflexivity). discriminate.
-    + destruct (ctype_of (result_type1 (vt_of a))) as [r|] eqn:Er; [|destruct a; discriminate].
+    + destruct (ctype_of (result_type1 UArith (vt_of a))) as [r|] eqn:Er; [|destruct a; discriminate].
       destruct (ctype_eqb r (promote w a)); [discriminate|]. rewrite E. discriminate.
   - unfold explain1, c_result1. destruct a; cbn; discriminate.
 Qed.
